@@ -492,7 +492,7 @@ func (Prop) RunUnit(env *kernel.Env, unit int) {
 		out.DistinctH("nontrivial", kernel.Hash64(fmt.Sprint(d.Text, d.Query, d.Corrupt, d.Transport, d.Plan)))
 		if v != nil {
 			out.Violate(v)
-			return false
+			return out.IsKnown(v) // a listed finding does not end the sweep of this text
 		}
 		return true
 	}
@@ -525,6 +525,9 @@ func (Prop) RunUnit(env *kernel.Env, unit int) {
 				}
 			}
 			out.Inc("texts_all_positions")
+			if out.WantSample() && k == 0 {
+				out.Sample(map[string]any{"format": "json", "text_spec": spec, "text": kernel.Short2(text, 200), "every_position": true})
+			}
 		}
 	case unit < smallUnits+tr.LargeTexts:
 		// large texts: positions sampled with bias to window multiples and the read-ahead region
